@@ -23,6 +23,8 @@ func checkC19(c *Ctx) {
 	c.Rule("C19-R5", "the JS drawCell call is dominated by the Dirty test and paired with SetDirty(false); palette table for the 16 basic colours equals the xterm values")
 	c.Rule("C19-R9", "whoever clears the page outside a draw (Suspend) is followed by an invalidation of every cell before the next draw (Resume), or the page stays blank until Sync")
 	c.Expect("C19-R9", 1)
+	c.Rule("C19-R10", "HideCursor moves the requested cursor position off-screen")
+	c.Expect("C19-R10", 1)
 	c.Rule("C19-R8", "Fini closes the quit channel exactly once and in every state (sync.Once around an unconditional close), so Fini after Suspend releases pollers and a second Fini is harmless")
 	c.Expect("C19-R8", 1)
 	c.Rule("C19-R7", "the key callback looks a key up under its plain DOM name whatever the modifiers are (the Ctrl-letter names are an additional, earlier lookup)")
@@ -165,6 +167,7 @@ func checkC19(c *Ctx) {
 			detail += fmt.Sprintf("; Resume invalidates the cells: %v", inv)
 		}
 		c.Check(ok, "C19-R9", "Suspend/Resume:page-repainted", "-", detail)
+		checkHideCursor(c, p, "C19-R10", "wScreen")
 	}
 	if fini := p.Fn("tcell:(*wScreen).Fini"); fini != nil {
 		var target *ssa.Function
